@@ -111,7 +111,8 @@ def speriodogram(x, NFFT=None, detrend=True, sampling=1.,
     elif x.ndim == 2:
         logging.debug('2D array. each row is a 1D array')
         [r, c] = x.shape
-        w = np.array([Window(r, window).data for this in range(c)]).reshape(r,c) 
+        # one window per column: (c, r) -> (r, c) needs a transpose, not a reshape
+        w = np.array([Window(r, window).data for this in range(c)]).transpose()
 
     if NFFT is None:
         NFFT = len(x)
